@@ -361,6 +361,12 @@ func ruleSliceReuse(roots ...string) ruleFn {
 					continue
 				}
 				n++
+				if sl.Max != nil && isIntConst(sl.Max, 0) {
+					// `x[:0:0]` (the head of the clone idiom `append(x[:0:0], x...)`): capacity 0 leaves no
+					// room in the original's array, an append to it allocates a new one
+					r.OK(rule, fnName(fn), "re-slice to zero length", r.P.pos(sl.Pos()), "the re-slice has capacity 0: appending to it cannot write into the original's backing array")
+					continue
+				}
 				_, fresh := sl.X.(*ssa.MakeSlice)
 				if al, isAl := sl.X.(*ssa.Alloc); isAl && al.Parent() == fn {
 					fresh = true
